@@ -187,6 +187,11 @@ def validators_used(ctx: Ctx, mods, oid: str):
 # property that has sat.py among its anchor files leaves that loop to C02
 DEFAULT_SKIP_STUTTER = ("solvor/sat.py",)
 
+# confirmed by reading: the one place where a caller deliberately hands a differently named parameter of its own
+R42_ALLOWED = {
+    ("solvor/milp.py", "_lns_improve", "iterations", "max_iter"): "the LNS pass count of solve_milp is the iteration budget of the inner lns() call; `max_iter` of the enclosing scope is the branch-and-bound budget",
+}
+
 
 def generic_sweeps(ctx: Ctx, stutter: bool = True, skip_stutter_modules: tuple = DEFAULT_SKIP_STUTTER):
     ctx.sweeps_done = True
@@ -283,7 +288,50 @@ def generic_sweeps(ctx: Ctx, stutter: bool = True, skip_stutter_modules: tuple =
                         continue
                     n_sel += 1
                     ctx.ob(g + "8", "R40 ARGUMENT-SELECTION", f, f"`{an}` is not passed where `{callee.name}` expects `{p_}`", False, f"`{ast.unparse(c)[:70]}`: the argument's name and the parameter's name denote opposite things (rows/columns, lower/upper, source/target ...), which usually means two arguments were swapped", node=c)
-    ctx.ob(g + "8", "R40 ARGUMENT-SELECTION", None, "no call in the anchor files passes an argument to a parameter of the opposite meaning", n_sel == 0, "", rel=mods[0].rel, fname="<anchor files>")
+    # R42: the caller has a variable named exactly like the callee's parameter and hands over another of its own
+    # parameters instead (`_most_fractional(x_vals, gap_tol)` where both `eps` and `gap_tol` are in scope)
+    for m in mods:
+        for q in sorted(m.funcs):
+            f = m.funcs[q]
+            scope = set(f.params)
+            up = f
+            while up.parent is not None:
+                up = up.parent
+                scope |= set(up.params)
+            for c in f.own_nodes():
+                if not isinstance(c, ast.Call):
+                    continue
+                callee = ctx.repo.resolve_call(f, c)
+                if callee is None:
+                    continue
+                params = [p_ for p_ in callee.params if p_ not in ("self", "cls")]
+                for a, p_ in list(zip(c.args, params)) + [(k.value, k.arg) for k in c.keywords if k.arg]:
+                    if not (isinstance(a, ast.Name) and a.id != p_ and len(p_) >= 3 and p_ in scope and a.id in scope):
+                        continue
+                    if (m.rel, f.qualname, a.id, p_) in R42_ALLOWED:
+                        ctx.ob(g + "8", "R42 SAME-NAME-FORWARDING", f, f"`{a.id}` handed to `{callee.name}({p_}=...)`", False, R42_ALLOWED[(m.rel, f.qualname, a.id, p_)], node=c, severity="note")
+                        continue
+                    n_sel += 1
+                    ctx.ob(g + "8", "R42 SAME-NAME-FORWARDING", f, f"`{callee.name}` receives the caller's own `{p_}` for its parameter `{p_}`", False, f"`{ast.unparse(c)[:70]}` passes `{a.id}` although `{p_}` is in scope: a tolerance, limit or size of one meaning used where another is expected", node=c)
+    ctx.ob(g + "8", "R40 ARGUMENT-SELECTION", None, "no call in the anchor files passes an argument to a parameter of the opposite meaning, or a different parameter of the caller where the caller has one of the expected name", n_sel == 0, "", rel=mods[0].rel, fname="<anchor files>")
+    # R41: `None` is this code base's only "not given" value (every optional parameter defaults to it and callers
+    # forward it); a public parameter that defaults to a private sentinel object gives an explicit None a new meaning
+    n_sent = n_opt = 0
+    for m in mods:
+        sentinels = {t.id for n in m.tree.body if isinstance(n, ast.Assign) and isinstance(n.value, ast.Call) and ast.unparse(n.value) == "object()" for t in n.targets if isinstance(t, ast.Name)}
+        for q in sorted(m.funcs):
+            f = m.funcs[q]
+            if f.name.startswith("_") or f.parent is not None:
+                continue
+            a = f.node.args
+            pos = a.posonlyargs + a.args
+            for prm, d in list(zip(pos[len(pos) - len(a.defaults):], a.defaults)) + [(p_, d_) for p_, d_ in zip(a.kwonlyargs, a.kw_defaults) if d_ is not None]:
+                if isinstance(d, ast.Constant) and d.value is None:
+                    n_opt += 1
+                if isinstance(d, ast.Name) and d.id in sentinels:
+                    n_sent += 1
+                    ctx.ob(g + "9", "R41 OPTIONAL-MEANS-NONE", f, f"optional parameter `{prm.arg}` defaults to None", False, f"it defaults to the private sentinel `{d.id}`: a caller that passes None explicitly (the 'not given' value of every other optional parameter here, forwarded as such by wrappers) now has None taken as a real value", node=d)
+    ctx.ob(g + "9", "R41 OPTIONAL-MEANS-NONE", None, f"no public function of the anchor files replaces None by a private sentinel as the 'not given' default ({n_opt} optional parameters default to None)", n_sent == 0, "", rel=mods[0].rel, fname="<anchor files>")
     infrastructure(ctx, g + "7")
     validators_used(ctx, mods, g + "7")
     ctx.count("functions swept (R31/R22)", n_funcs)
